@@ -15,7 +15,7 @@ if os.path.exists(p):
         r = json.loads(ln)
         det.setdefault(r["seed"], {})[r["check"]] = r   # later lines override earlier ones
 rows = []
-for d in sorted(glob.glob("/tmp/seed/C??-?") + glob.glob("/tmp/seed/X?-?")):
+for d in sorted(glob.glob("/tmp/seed/C??-?") + glob.glob("/tmp/seed/X?-?") + glob.glob("/tmp/seed/R8-C??")):
     sid = os.path.basename(d)
     if sid not in conf or "fails(ok)" not in conf[sid] or "passes(ok)" not in conf[sid] or "/0" not in conf[sid]:
         if not os.path.exists(os.path.join(V, "seeded", sid, "meta.json")):
@@ -27,7 +27,7 @@ for d in sorted(glob.glob("/tmp/seed/C??-?") + glob.glob("/tmp/seed/X?-?")):
     try: meta = json.load(open(os.path.join(d, "meta.json")))
     except Exception: meta = {}
     checks = det.get(sid, {})
-    prop = sid.split("-")[0] if sid.startswith("C") else ",".join(sorted(set(re.findall(r"C\d\d", str(meta.get("property", ""))))))
+    prop = sid.split("-")[1] if sid.startswith("R8-") else sid.split("-")[0] if sid.startswith("C") else ",".join(sorted(set(re.findall(r"C\d\d", str(meta.get("property", ""))))))
     meta.update(property=prop, agent_stated_property=str(meta.get("property", "")),
                 confirmed_in_scratch_worktree=conf.get(sid, "confirmed manually, see DESIGN 12.5"),
                 what_was_run="tools/seedconfirm.sh (git apply; cargo build --features dudect; cargo test --workspace --no-fail-fast --offline; demo with the patch must fail, without it must pass), then tools/seedrun.py (git -C /repo apply; bin/check <ID> --tier quick; git -C /repo checkout -- .)",
